@@ -709,12 +709,25 @@ func runDevs(c cfg, devs []dev) runResult {
 	return res
 }
 
-func configs(tier string) ([]cfg, int) {
+// plan: one entry per configuration with its deviation bound and the number of worker processes it
+// gets (a process hosts one network size; the shares follow the number of runs each entry needs)
+type plan struct {
+	c      cfg
+	k      int
+	shards int
+}
+
+func configs(tier string) []plan {
 	// the Byzantine producer has index 1 so that it owns two slots inside the horizon
 	if tier == "thorough" {
-		return []cfg{{N: 3, Byz: -1, T: 7, Restarts: 1}, {N: 4, Byz: 1, T: 6, Restarts: 1}, {N: 4, Byz: -1, T: 7, Restarts: 1}}, 3
+		return []plan{
+			{cfg{N: 3, Byz: -1, T: 6, Restarts: 1}, 3, 30},
+			{cfg{N: 4, Byz: 1, T: 6, Restarts: 1}, 2, 7},
+			{cfg{N: 4, Byz: -1, T: 7, Restarts: 1}, 2, 6},
+			{cfg{N: 3, Byz: -1, T: 8, Restarts: 1}, 2, 5},
+		}
 	}
-	return []cfg{{N: 3, Byz: -1, T: 6, Restarts: 1}, {N: 4, Byz: 1, T: 6, Restarts: 0}}, 2
+	return []plan{{cfg{N: 3, Byz: -1, T: 6, Restarts: 1}, 2, 16}, {cfg{N: 4, Byz: 1, T: 6, Restarts: 0}, 2, 16}}
 }
 
 func explore(ctx *xplor.Ctx, c cfg, k, shard, nshards int) {
@@ -761,6 +774,7 @@ func explore(ctx *xplor.Ctx, c cfg, k, shard, nshards int) {
 			}
 			ctx.Count("veto_probes", int64(r.probes))
 			ctx.Count(fmt.Sprintf("runs_with_%d_deviations", len(cur)), 1)
+			ctx.Count(fmt.Sprintf("runs_n%d_byz%d_T%d_restarts%d_bound%d", c.N, c.Byz, c.T, c.Restarts, k), 1)
 			if r.msg != "" {
 				ctx.Violation(sigOf(c, cur, r.msg), fmt.Sprintf("%+v deviations %v: %s", c, devList(cur), r.msg), replay{c, cur})
 			} else if r.endKey != "" {
@@ -848,12 +862,25 @@ func run(ctx *xplor.Ctx) {
 		}
 		return
 	}
-	cs, k := configs(ctx.Tier)
+	cs := configs(ctx.Tier)
 	// one Net (number of producers) per process: the shard picks its configuration
-	ci := ctx.Shard % len(cs)
-	explore(ctx, cs[ci], k, ctx.Shard/len(cs), ctx.NShards/len(cs))
+	total := 0
+	for _, p := range cs {
+		total += p.shards
+	}
+	if total != ctx.NShards {
+		panic(fmt.Sprintf("plan wants %d shards, runner has %d", total, ctx.NShards))
+	}
+	sh := ctx.Shard
+	for _, p := range cs {
+		if sh < p.shards {
+			explore(ctx, p.c, p.k, sh, p.shards)
+			break
+		}
+		sh -= p.shards
+	}
 	if ctx.Shard == 0 {
-		ctx.Sample(map[string]interface{}{"config": cs[0], "deviations": []dev{{Kind: "delay", S: 2, I: 0, R: 5}, {Kind: "restart", S: 4, I: 1}},
+		ctx.Sample(map[string]interface{}{"config": cs[0].c, "deviations": []dev{{Kind: "delay", S: 2, I: 0, R: 5}, {Kind: "restart", S: 4, I: 1}},
 			"meaning": "the block of slot 2 reaches node 0 only at the end of slot 5 (node 0 forks at slot 3); node 1 restarts after slot 4; everything else synchronous"})
 	}
 }
